@@ -379,8 +379,10 @@ def edit_constant(parameterized):
             for name, pobj in parameterized.param.objects(instance=False).items():
                 if private.params.get(name, pobj).constant and name not in names:
                     names.append(name)
+                if pobj.constant and ('class', name) not in names:
+                    names.append(('class', name))
             for name in names:
-                pobj = private.params.get(name)
+                pobj = private.params.get(name) if isinstance(name, str) else None
                 if pobj is not None and pobj.constant:
                     pobj.constant = False
             yield
@@ -392,7 +394,12 @@ def edit_constant(parameterized):
                 names, private.unlocked_params = private.unlocked_params, []
                 failure = None
                 for name in names:
-                    pobj = private.params.get(name)
+                    if isinstance(name, str):
+                        pobj = private.params.get(name)
+                    else:
+                        # (a class-level flag that code inside the block
+                        # switched off and could not find again)
+                        pobj = type(parameterized).param.objects(instance=False).get(name[1])
                     try:
                         if pobj is not None and not pobj.constant:
                             pobj.constant = True
@@ -4532,7 +4539,12 @@ class Parameters:
                 return
             _seen.add(id(self))
             for pname, p in self.param.objects('existing').items():
-                g = self.param.get_value_generator(pname)
+                try:
+                    g = self.param.get_value_generator(pname)
+                except Exception:
+                    # (a value that cannot be read - a Path whose file is
+                    # gone - holds no dynamic state)
+                    continue
                 if hasattr(g,'_Dynamic_last'):
                     g._saved_Dynamic_last.append(g._Dynamic_last)
                     g._saved_Dynamic_time.append(g._Dynamic_time)
@@ -4568,7 +4580,12 @@ class Parameters:
                 return
             _seen.add(id(self))
             for pname, p in self.param.objects('existing').items():
-                g = self.param.get_value_generator(pname)
+                try:
+                    g = self.param.get_value_generator(pname)
+                except Exception:
+                    # (a value that cannot be read - a Path whose file is
+                    # gone - holds no dynamic state)
+                    continue
                 if hasattr(g,'_Dynamic_last'):
                     if not g._saved_Dynamic_last:
                         continue    # installed after the state was pushed
@@ -5640,30 +5657,38 @@ class _InstancePrivate:
 
     def __getstate__(self):
         state = {slot: getattr(self, slot) for slot in self.__slots__}
-        # The edit_constant markers are not part of the state (a copy starts
-        # locked, see below); left out, an earlier version of the library
-        # can read the pickle
+        # A copy starts idle and locked (see below): the queue of a batch in
+        # progress and the edit_constant markers are not part of the state.
+        # Without them an earlier version of the library can read the
+        # pickle; the constants to lock again travel in a place it ignores.
         del state['unlocked']
-        if not state['unlocked_params']:
-            del state['unlocked_params']
+        del state['unlocked_params']
+        state['parameters_state'] = self._idle()
+        if self.unlocked_params:
+            state['parameters_state']['unlocked'] = [n for n in self.unlocked_params if isinstance(n, str)]
         return state
+
+    @staticmethod
+    def _idle():
+        return {
+            "BATCH_WATCH": False, # If true, Event and watcher objects are queued.
+            "TRIGGER": False,
+            "events": [], # Queue of batched events
+            "watchers": [], # Queue of batched watchers
+        }
 
     def __setstate__(self, state):
         for k, v in state.items():
             setattr(self, k, v)
         # A copy starts idle, also when it was taken in the middle of a
         # batch, of param.trigger or of the synchronisation of a reference
-        self.parameters_state = {
-            "BATCH_WATCH": False, # If true, Event and watcher objects are queued.
-            "TRIGGER": False,
-            "events": [], # Queue of batched events
-            "watchers": [], # Queue of batched watchers
-        }
+        unlocked = (self.parameters_state or {}).get('unlocked') or []
+        self.parameters_state = self._idle()
         self.syncing = set()
         # ... and locked: the Parameters that showed constant=False because
         # the original was inside edit_constant are constants again
         self.unlocked = 0
-        for name in getattr(self, 'unlocked_params', None) or []:
+        for name in unlocked:
             if name in self.params:
                 self.params[name].constant = True
         self.unlocked_params = []
